@@ -945,17 +945,22 @@ class CParser(RecursiveDescentParser):
         location = self.consume("for").loc
         self.semantics.enter_scope()  # for loops have their own scope.
         self.consume("(")
+        init_declarations = None
         if self.peek == ";":
             initial = None
         else:
             if self.is_declaration_statement():
                 # C99 only, declaration inside for-loop!
+                # The declaration statement is collected here, instead of
+                # in the enclosing compound statement: it belongs to this
+                # loop, which might be the (brace-less) body of another
+                # loop or if statement.
+                self.semantics.enter_for_declaration()
                 decl_spec = self.parse_decl_specifiers()
                 declaration = self.parse_declarator()
-                variable_declaration = self.parse_variable_declaration(
-                    decl_spec, declaration
-                )
-                initial = variable_declaration
+                self.parse_variable_declaration(decl_spec, declaration)
+                init_declarations = self.semantics.leave_for_declaration()
+                initial = None
             else:
                 initial = self.parse_expression()
         self.consume(";")
@@ -974,7 +979,9 @@ class CParser(RecursiveDescentParser):
 
         body = self.parse_statement()
         self.semantics.leave_scope()
-        return self.semantics.on_for(initial, condition, post, body, location)
+        return self.semantics.on_for(
+            initial, condition, post, body, location, init_declarations
+        )
 
     def parse_return_statement(self):
         """Parse a return statement"""
